@@ -191,7 +191,7 @@ def implSessOf (st : SrvSt) (c : Nat) : Option ObsSess := st.implSess.find? (fun
 def handleSrvMsg (st : SrvSt) (c : Nat) (m : Msg) (ops : List Op) (resps : List Resp) (code reason : String) : SrvSt :=
   let st := { st with prevEnts := st.rs.implEnts, prevPend := st.rs.implPend }
   -- remember submitted ops (for the RIB-level monitors)
-  let rs := ops.foldl (fun rs op => { rs with ops := rs.ops.insert op.id op }) st.rs
+  let rs := ops.foldl (fun rs op => { rs with ops := rs.ops.insert op.id op, adds := if op.ty == OpType.delete then rs.adds else rs.adds.insert op.id op }) st.rs
   let st := { st with rs := rs }
   let isess := implSessOf st c
   let fibSession := (isess.map (fun (s : ObsSess) => s.params.fibAck)).getD false
@@ -255,8 +255,12 @@ def handleSrvMsg (st : SrvSt) (c : Nat) (m : Msg) (ops : List Op) (resps : List 
         then st.monfail "c12" "a malformed operation was acknowledged as programmed" else st
       -- … and each operation on its own: one that can never be valid (zero index, empty group, …),
       -- or that names a network instance for its group that does not exist, is never acknowledged
-      let st := match l.find? (fun e => (e.1.cls != Cls.wf || e.1.ty == OpType.invalid || e.1.ni == "" ||
-            (e.1.ty != OpType.delete && (structBad e.1 || unknownGrpNI st.rs e.1))) &&
+      -- (a server created without the RIB's check function does not judge references — zero
+      -- indices, empty groups, unknown group instances are the check function's business — but an
+      -- entry or key that is not even well formed is refused there too)
+      let st :=
+        match l.find? (fun e => (e.1.cls != Cls.wf || e.1.ty == OpType.invalid || e.1.ni == "" ||
+            (!st.rs.nocheck && e.1.ty != OpType.delete && (structBad e.1 || unknownGrpNI st.rs e.1))) &&
           acked.any (fun a => a.1 == e.1.id)) with
         | some e => st.monfail "c12" s!"malformed operation {e.1.id} ({showKey e.1.key} in {e.1.ni}) was acknowledged as programmed"
         | none => st
@@ -335,7 +339,7 @@ exists programs the operations whose results it managed to hand over plus the on
 hand: the first `j + 2` of the batch; the session is removed. -/
 def handleSrvCutMid (st : SrvSt) (c : Nat) (j : Nat) (ops : List Op) (resps : List Resp) (code : String) : SrvSt :=
   let st := { st with prevEnts := st.rs.implEnts, prevPend := st.rs.implPend }
-  let rs := ops.foldl (fun rs op => { rs with ops := rs.ops.insert op.id op }) st.rs
+  let rs := ops.foldl (fun rs op => { rs with ops := rs.ops.insert op.id op, adds := if op.ty == OpType.delete then rs.adds else rs.adds.insert op.id op }) st.rs
   let st := { st with rs := rs }
   let fibSession := ((implSessOf st c).map (fun (s : ObsSess) => s.params.fibAck)).getD false
   let st := c06Account st c (ops.map (·.id)) resps fibSession
@@ -541,6 +545,16 @@ def srvLine (st : SrvSt) (ts : List Tok) : SrvSt :=
         | some d, some vrfs =>
           let srv := Server.new d vrfs (tokStr f == "fwd=1") (tokStr h == "hook=1")
           { st with srv := srv, rs := { st.rs with model := srv.rib, hookFold := if tokStr h == "hook=1" then some [] else none } }
+        | _, _ => bad st
+      | [d, f, h, v, c] =>
+        match strOf d, strListOf v with
+        | some d, some vrfs =>
+          let srv := Server.new d vrfs (tokStr f == "fwd=1") (tokStr h == "hook=1")
+          let st := { st with srv := srv, rs := { st.rs with model := srv.rib, hookFold := if tokStr h == "hook=1" then some [] else none } }
+          -- a server without the RIB's check function: not a configuration the model describes
+          if tokStr c == "check=0" then
+            { st with rs := ({ st.rs with nocheck := true, diverged := true, partialFlush := true }).covr "srv.nocheck" }
+          else st
         | _, _ => bad st
       | _ => bad st
     else if c = "srv.addni" then
